@@ -392,11 +392,12 @@ func cmdCheck(args []string) {
 	os.MkdirAll(replayDir, 0o755)
 
 	type wres struct {
-		agg     *agg
-		lastBeg string
-		exitErr error
-		output  string
-		aggOK   bool
+		agg       *agg
+		lastBeg   string
+		exitErr   error
+		output    string
+		aggOK     bool
+		racePhase bool
 	}
 	type phase struct {
 		race  bool
@@ -502,15 +503,16 @@ func cmdCheck(args []string) {
 								line := sc.Text()
 								if strings.HasPrefix(line, "begin ") {
 									r.lastBeg = line
-								} else {
+									tail = tail[:0] // keep what follows the last begin line
+								} else if len(tail) < 400 {
 									tail = append(tail, line)
-									if len(tail) > 60 {
-										tail = tail[1:]
-									}
 								}
 							}
 							f.Close()
 							r.output = strings.Join(tail, "\n")
+						}
+						if ph.race && !r.aggOK {
+							r.racePhase = true
 						}
 						resMu.Lock()
 						phaseResults = append(phaseResults, r)
@@ -587,6 +589,21 @@ func cmdCheck(args []string) {
 					break
 				}
 				reason := deathReason(r.output)
+				if r.racePhase && strings.HasPrefix(reason, "fatal error: concurrent map") && risorFrameFirst(r.output) {
+					// The runtime itself detected concurrent access to a map in risor
+					// code inside a parallel window. Parallel windows do not replay
+					// exactly (DESIGN 2.6), so this is not re-confirmed by repetition:
+					// the runtime's detection is unambiguous.
+					rp := filepath.Join(replayDir, fmt.Sprintf("%s-%d-%d.json", id, seed, idx))
+					rf := map[string]any{"property": id, "scenario": md.Name, "tier": *tier, "base_seed": seed, "index": idx, "run_seed": rseed, "regenerate": true,
+						"violation": map[string]any{"property": id, "class": "process-death", "message": reason},
+						"rendering": map[string]any{"death": reason, "log_head": firstLines(r.output, 40), "note": "phase R (race build): the Go runtime aborted the process on concurrent map access in risor code"}}
+					b, _ := json.MarshalIndent(rf, "", " ")
+					os.WriteFile(rp, b, 0o644)
+					total.Violations = append(total.Violations, foundViolation{Property: id, Class: "race/" + firstLine(reason), Message: "phase R: the worker process died: " + reason + "\n" + firstLines(r.output, 25), Seed: rseed, Index: idx, Replay: rp})
+					confirmed++
+					continue
+				}
 				if strings.Contains(reason, "harness:") || reason == "" {
 					handled = false
 					break
@@ -700,6 +717,37 @@ func deathReason(log string) string {
 		}
 	}
 	return ""
+}
+
+func firstLines(s string, n int) string {
+	l := strings.Split(s, "\n")
+	if len(l) > n {
+		l = l[:n]
+	}
+	return strings.Join(l, "\n")
+}
+
+// risorFrameFirst reports whether the first goroutine of a crash dump is
+// executing risor code (not harness code) below the runtime frames.
+func risorFrameFirst(log string) bool {
+	seenGoroutine := false
+	for _, l := range strings.Split(log, "\n") {
+		if strings.HasPrefix(l, "goroutine ") {
+			if seenGoroutine {
+				return false
+			}
+			seenGoroutine = true
+			continue
+		}
+		if !seenGoroutine || strings.HasPrefix(l, "\t") || strings.TrimSpace(l) == "" {
+			continue
+		}
+		if strings.HasPrefix(l, "runtime.") || strings.HasPrefix(l, "internal/") || strings.HasPrefix(l, "sync.") {
+			continue
+		}
+		return strings.HasPrefix(l, "github.com/risor-io/risor/") && !strings.HasPrefix(l, "github.com/risor-io/risor/verif/")
+	}
+	return false
 }
 
 func firstLine(s string) string {
